@@ -141,6 +141,11 @@ def cases(ctx):
         out.append(cast_case(f"nested.{cast}", "(MapOrListValue(), MapOrListValue())", f"{{'a': ['3', {s2}], 'b': {{1: {s1}, None: '-2'}}, 'c': u1, 'd': [[u1]]}}", cast, cond, L))
         out.append(cast_case(f"missing.{cast}", "('zz', 'y')", f"{{'a': '3', 'c': u1}}", cast, cond, L))
         out.append(cast_case(f"scalar_midpath.{cast}", "('c', 'y')", f"{{'a': '3', 'c': u1}}", cast, cond, L))
+    for cast in ("bool", "int"):
+        cond = "Value.equal_to(t)" if cast == "int" else "Value.equal_to(True)"
+        out.append(cast_case(f"fanout_then_key.{cast}", "(MapValue(), 'port')", "{'version': u1, 'e': {}, 'db': {'port': '5432', 'on': 'true'}, 'n': None, 'cache': {'port': 'x'}, 'l': ['3']}", cast, cond, L))
+        out.append(cast_case(f"fanout_then_index.{cast}", "(MapOrListValue(), 0)", "{'version': u1, 's': '', 'db': ['5432', 'true'], 'e': [], 'cache': {0: 'true', 1: '3'}}", cast, cond, L))
+        out.append(cast_case(f"list_fanout_then_key.{cast}", "(ListValue(), 'p')", "[u1, [], {'p': '3'}, None, {'p': 'true'}, 'x']", cast, cond, L))
     both = "{str: valida.casting.cast_string_to_bool, int: str}"
     body = f"""
 doc = {{'a': 'true', 'b': 'x', 'c': u1, 1: '3', None: [u1, 'False']}}
